@@ -1,7 +1,7 @@
 // C06 - SCRAM client (QXmppSaslClientScram::respond, parseGS2): refusal and RFC 5802 conformance
 #include "c06_common.h"
 #include "base/QXmppSasl.cpp"
-C06_VTABLE(QXmppSaslClient) C06_VTABLE(QXmppSaslClientScram)
+C06_VTABLE(QXmppSaslClient) C06_VTABLE(QXmppSaslClientScram) C06_VTABLE(QXmppSaslClientPlain) C06_VTABLE(QXmppSaslClientHt) C06_VTABLE(QXmppSaslClientAnonymous)
 
 static SaslScramMechanism symMech()
 {
@@ -158,7 +158,7 @@ extern "C" void h_scram_final_any()
 // parseGS2 on arbitrary bytes = attribute map of the RFC 5802 grammar (attr "=" value, separated by ','; the last duplicate wins)
 extern "C" void h_parse_gs2()
 {
-    QByteArray m = vpBytesN(C06_GS2LEN); vp_assume(vpCountByte(m, ',') <= 3);
+    QByteArray m = vpBytesN(vp_cfg(0)); vp_assume(vpCountByte(m, ',') <= int(vp_cfg(1)));
     auto map = parseGS2(m);
     const char keys[4] = { 'r', 's', 'i', 'v' };
     for (char key : keys) {
@@ -172,6 +172,64 @@ extern "C" void h_parse_gs2()
         }
         QByteArray got = map.value(key);
         if (vs < 0) vp_assert(got.isEmpty(), "C06 parseGS2: attribute absent => empty value");
-        else vp_assert(got == m.mid(vs, ve - vs), "C06 parseGS2: value of the (last) attribute with that name");
+        else {
+            bool same = got.size() == ve - vs;
+            for (int i = 0; same && i < got.size(); i++) if (got.at(i) != m.at(vs + i)) same = false;
+            vp_assert(same, "C06 parseGS2: value of the (last) attribute with that name");
+        }
     }
+}
+
+// ---------------------------------------------------------------------------------------------------------------------
+// PLAIN (RFC 4616): message = [authzid] NUL authcid NUL passwd, sent once
+extern "C" void h_plain()
+{
+    QXmppSaslClientPlain c(nullptr);
+    QString user = vpStringExact(vp_cfg(0)), pw = vpStringExact(vp_cfg(1)); vp_assume(vpAscii(user) && vpAscii(pw));
+    c.setUsername(user); Credentials cr; cr.password = pw; c.QXmppSaslClientPlain::setCredentials(cr);
+    auto r0 = c.QXmppSaslClientPlain::respond(vpSymBytes(2));
+    vp_assert(r0.has_value(), "C06 PLAIN: initial response is produced");
+    QByteArray exp; exp.append('\0'); exp.append(user.toUtf8()); exp.append('\0'); exp.append(pw.toUtf8());
+    if (r0) vp_assert(*r0 == exp, "C06 PLAIN: response = NUL user NUL password (RFC 4616)");
+    auto r1 = c.QXmppSaslClientPlain::respond(vpSymBytes(2));
+    vp_assert(!r1.has_value(), "C06 PLAIN: no second response");
+}
+
+// HT-*-NONE (XEP-0484): initial response = user NUL HMAC-<hash>(token, "Initiator"); refused if there is no token, the token
+// belongs to another mechanism, the challenge is not empty, or a response was already sent
+extern "C" void h_ht()
+{
+    unsigned ha = vp_u32(), hb = vp_u32(); vp_assume(ha <= unsigned(IanaHashAlgorithm::Sha3_512) && hb <= unsigned(IanaHashAlgorithm::Sha3_512));
+    SaslHtMechanism mech { IanaHashAlgorithm(ha), SaslHtMechanism::None };
+    QXmppSaslClientHt c(mech, nullptr);
+    QString user = vpStringExact(vp_cfg(0)), secret = vpStringExact(vp_cfg(1)); vp_assume(vpAscii(user) && vpAscii(secret));
+    c.setUsername(user);
+    bool haveToken = vp_bool();
+    unsigned cb = vp_u32(); vp_assume(cb <= unsigned(SaslHtMechanism::None));
+    SaslHtMechanism tokMech { IanaHashAlgorithm(hb), SaslHtMechanism::ChannelBindingType(cb) };
+    Credentials cr; if (haveToken) cr.htToken = HtToken { tokMech, secret, QDateTime() };
+    c.QXmppSaslClientHt::setCredentials(cr);
+    QByteArray ch = vpSymBytes(1);
+    // reference first (the oracle is order-independent; keeps its log concrete)
+    QByteArray exp(user.toUtf8()); exp.append('\0');
+    exp.append(QMessageAuthenticationCode::hash(QByteArray("Initiator"), secret.toUtf8(), ianaHashAlgorithmToQt(IanaHashAlgorithm(ha))));
+    unsigned nref = vp_orc_count();
+    auto r0 = c.QXmppSaslClientHt::respond(ch);
+    bool expect = haveToken && ha == hb && cb == unsigned(SaslHtMechanism::None) && ch.isEmpty();
+    vp_assert(r0.has_value() == expect, "C06 HT: responds iff a token of exactly this mechanism is stored and the challenge is empty");
+    if (!r0) vp_assert(vp_orc_count() == nref, "C06 HT: nothing is computed from the token when the response is refused");
+    if (r0 && expect) {
+        vp_assert(*r0 == exp, "C06 HT: response = user NUL HMAC(token, 'Initiator') with the hash of the mechanism name");
+        auto r1 = c.QXmppSaslClientHt::respond(QByteArray());
+        vp_assert(!r1.has_value(), "C06 HT: no second response");
+    }
+}
+// hash algorithm named by the mechanism is the one used (IANA name -> Qt algorithm)
+extern "C" void h_ht_alg()
+{
+    using H = IanaHashAlgorithm; using Q = QCryptographicHash;
+    vp_assert(ianaHashAlgorithmToQt(H::Sha256) == Q::Sha256 && ianaHashAlgorithmToQt(H::Sha384) == Q::Sha384 && ianaHashAlgorithmToQt(H::Sha512) == Q::Sha512, "C06 hash names: SHA-2 family maps to SHA-2");
+    vp_assert(ianaHashAlgorithmToQt(H::Sha3_224) == Q::RealSha3_224 && ianaHashAlgorithmToQt(H::Sha3_256) == Q::RealSha3_256 && ianaHashAlgorithmToQt(H::Sha3_384) == Q::RealSha3_384 && ianaHashAlgorithmToQt(H::Sha3_512) == Q::RealSha3_512, "C06 IANA SHA-3 names map to FIPS-202 SHA-3");
+    vp_assert(SaslScramMechanism { SaslScramMechanism::Sha1 }.qtAlgorithm() == Q::Sha1 && SaslScramMechanism { SaslScramMechanism::Sha256 }.qtAlgorithm() == Q::Sha256 &&
+              SaslScramMechanism { SaslScramMechanism::Sha512 }.qtAlgorithm() == Q::Sha512 && SaslScramMechanism { SaslScramMechanism::Sha3_512 }.qtAlgorithm() == Q::RealSha3_512, "C06 SCRAM: hash of the mechanism name is the one used");
 }
